@@ -199,6 +199,29 @@ def gen_cases(ctx):
             pi += [rng.choice(base) for _k in range(rng.randint(1, 2))]          # e.g. [1, 3, 3]: three entries spanning 1..3
         rng.shuffle(pi)
         cases.append((rng.choice(KINDS[:3]), ref, pred, int(rng.choice([1, 2])), [int(x) for x in pi]))
+    # boolean arrays WITH a label selection (True is label 1; any other label is absent and selects nothing), and label maps whose
+    # neighbouring ids are large (class * 100000 + instance: 300000, 300001, 300002, also as float32 / float64 maps, where any
+    # relative tolerance would reach the next id)
+    for _ in range(ctx.scale(40, 400)):
+        nd = rng.choice([1, 2, 3])
+        shape = tuple(rng.randint(2, 6) for _k in range(nd))
+        n = int(np.prod(shape))
+        if rng.random() < 0.5:
+            ref = np.array([rng.choice([0, 1, 1]) for _k in range(n)], dtype=bool).reshape(shape)
+            pred = np.array([rng.choice([0, 1]) for _k in range(n)], dtype=bool).reshape(shape)
+            if rng.random() < 0.4:
+                pred = pred.astype(rng.choice(["uint8", "int32"])) * rng.choice([1, 2])
+            ri = rng.choice([1, 1, 2, 5])
+            pi = rng.choice([1, 2, [1, 2], [2, 5], [1], [2]])
+        else:
+            base = rng.choice([100000, 300000, 1000000, 16000000])
+            dt = rng.choice(["float32", "float64", "float64", "int64", "uint32"])
+            ids = [base + k for k in range(4)]
+            ref = np.array([rng.choice([0] + ids[:3]) for _k in range(n)], dtype=dt).reshape(shape)
+            pred = np.array([rng.choice([0] + ids) for _k in range(n)], dtype=dt).reshape(shape)
+            ri = rng.choice(ids[:3])
+            pi = rng.choice([ids[1], [ids[1]], [ids[0], ids[2]], [ids[3]], ids[2]])
+        cases.append((rng.choice(KINDS[:3]), ref, pred, ri if isinstance(ri, list) else int(ri), [int(x) for x in pi] if isinstance(pi, list) else int(pi)))
     # a reference instance against the UNION of many prediction labels (a merged prediction): long label lists (20-60 entries, some
     # absent from the array), many distinct labels in the arrays, far-away label values, integer-valued floating-point label maps
     for _ in range(ctx.scale(30, 300)):
